@@ -36,7 +36,7 @@ class Profile:
     """weighted random op generator"""
     def __init__(self, name, shapes, weights, nmock=2, nseq=2, nslot=NSLOT, args=(0, 1, 2), terms=TERMS_SMALL,
                  bounds=((1, 1), (0, 1), (1, 2), (2, 2), (0, INF), (1, INF), (0, 0), (2, 3)), se_beh=(0,), seglen=(8, 30),
-                 allow_bad_bounds=True, forbid_seq=False, fns=(1, 2, 3, 4), tracer_kinds=(1, 2), multi_mon=True,
+                 allow_bad_bounds=True, forbid_seq=False, fns=(1, 1, 2, 3, 4, 5, 6, 7), tracer_kinds=(1, 2), multi_mon=True,
                  prelude=(), scoped_shapes=tuple(sorted(SCOPED_IDS - NONMOVABLE_IDS)), use_nm=True, use_wm=True):
         self.__dict__.update(locals())
 
@@ -214,14 +214,14 @@ class Profile:
         else:
             raise ValueError(k)
 
-SIMPLE = [1, 2, 3, 9, 10, 12, 13, 126, 127, 22, 23, 24, 30, 32, 33, 40, 42, 43, 50, 52, 53, 60, 61, 62, 63, 64, 65, 66, 67, 68, 120, 122, 123]
-SEQSH = [5, 6, 7, 8, 11, 25, 26, 27, 34, 44, 54, 56, 69, 121, 124, 125]
+SIMPLE = [1, 2, 3, 9, 10, 12, 13, 126, 127, 130, 131, 132, 135, 137, 138, 140, 141, 142, 143, 22, 23, 24, 30, 32, 33, 40, 42, 43, 50, 52, 53, 60, 61, 62, 63, 64, 65, 66, 67, 68, 120, 122, 123]
+SEQSH = [5, 6, 7, 8, 11, 25, 26, 27, 34, 44, 54, 56, 69, 121, 124, 125, 133, 139]
 
 PROFILES = {
     'lifecycle': Profile('lifecycle', SIMPLE,
                          dict(mock=3, expect=8, call=10, call_live=10, release=4, dmock=1.5, mmock=1.5, scope=2.5, endscope=2.5), nmock=3,
                          prelude=('mock',)),
-    'overlap': Profile('overlap', [2, 3, 5, 6, 7, 9, 10, 11, 26, 27, 30, 40, 50],
+    'overlap': Profile('overlap', [2, 3, 5, 6, 7, 9, 10, 11, 26, 27, 30, 40, 50, 130, 131, 135, 137],
                        dict(mock=1, seq=2, expect=10, call=6, call_live=16, release=2, mmock=0.5), nmock=2, nseq=2,
                        args=(0, 1), terms=[(0, 0), (1, 0), (1, 1), (2, 0)], prelude=('mock', 'seq', 'seq'),
                        bounds=((1, 1), (0, 1), (1, 2), (2, 2), (0, INF), (1, INF), (2, 3))),
@@ -236,10 +236,10 @@ PROFILES = {
                               dobj=2, unwatch=0.7, scope=1.5, mscope=1, endscope=2.5), nmock=2, nseq=3, args=(0, 1), terms=[(0, 0), (0, 0), (1, 0), (1, 1)],
                          prelude=('mock', 'seq', 'seq'), multi_mon=False, seglen=(10, 34),
                          bounds=((1, 1), (0, 1), (1, 2), (2, 2), (0, INF), (1, INF), (2, 3))),
-    'forbid': Profile('forbid', [12, 13, 14, 2, 9, 10, 1, 3, 33, 43, 53, 30, 40, 50, 23, 62, 63, 68, 65, 67, 64, 126, 126, 127],
+    'forbid': Profile('forbid', [12, 13, 14, 2, 9, 10, 1, 3, 33, 43, 53, 30, 40, 50, 23, 62, 63, 68, 65, 67, 64, 126, 126, 127, 132, 138, 131, 137],
                       dict(mock=1, expect=8, call=6, call_live=14, release=4, dmock=0.7, scope=3, endscope=3), nmock=2,
                       bounds=((0, 0), (0, 0), (1, 1), (0, INF), (1, 2)), prelude=('mock',)),
-    'clauses': Profile('clauses', [4, 8, 16, 21, 25, 31, 41, 51, 15, 55, 3, 10, 13, 90, 91, 92],
+    'clauses': Profile('clauses', [4, 8, 16, 21, 25, 31, 41, 51, 15, 55, 3, 10, 13, 90, 91, 92, 134, 136, 140, 141],
                        dict(mock=0.5, seq=1, expect=8, call_live=14, call=3, release=2), nmock=1, nseq=2,
                        se_beh=(0, 0, 0, 0, 1, 2, 3, 3), prelude=('mock', 'seq', 'seq'),
                        bounds=((1, 1), (0, INF), (1, 3), (2, 2))),
@@ -250,10 +250,10 @@ PROFILES = {
                             dict(mock=2, seq=2, expect=8, call=2, call_live=6, release=4, dmock=3, mmock=3, dseq=3, obj=2,
                                  watch=3, unwatch=2, dobj=2, cpobj=0.5, mvobj=0.5, asobj=0.5, masobj=0.5, tracer=2,
                                  dtracer_any=2), nmock=3, nseq=3, prelude=('mock', 'seq')),
-    'reporters': Profile('reporters', [2, 3, 5, 9, 10, 12, 13, 30, 33, 50, 53, 11],
+    'reporters': Profile('reporters', [2, 3, 5, 9, 10, 12, 13, 30, 33, 50, 53, 11, 130, 132, 135, 138],
                          dict(mock=0.5, seq=0.5, expect=8, call=5, call_live=14, release=3, setrep=5, dmock=0.5, obj=0.7,
                               dobj=0.7), nmock=2, nseq=1, prelude=('mock', 'seq')),
-    'trace': Profile('trace', [1, 2, 4, 15, 16, 50, 51, 55, 30, 40, 12, 9, 90, 91, 92],
+    'trace': Profile('trace', [1, 2, 4, 15, 16, 50, 51, 55, 30, 40, 12, 9, 90, 91, 92, 130, 135, 134, 142, 143, 144, 142],
                      dict(mock=0.5, expect=8, call=3, call_live=14, release=2, tracer=6, dtracer=2.5, dtracer_any=2.5), nmock=1,
                      se_beh=(0, 0, 0, 1, 2, 3), prelude=('mock',), bounds=((1, 1), (0, INF), (1, 3))),
 }
@@ -282,6 +282,13 @@ if __name__ == '__main__':
 def gen_coro_segments(nseg, seed, skip=(), prefix='coro'):
     rnd = random.Random(seed)
     out = []
+    # positional names _1.._15 inside CO_RETURN / CO_THROW / CO_YIELD / LR_CO_RETURN of a 15-parameter coroutine (clause evaluated during the call)
+    for n in range(max(4, nseg // 60)):
+        ops = []
+        for k in (1, 2, 3, 4):
+            vals = rnd.sample(range(1, 60), 15)          # pairwise different
+            ops.append('cargs %d %s' % (k, ' '.join(map(str, vals))))
+        out.append(('%s-args-%d-%d' % (prefix, seed, n), ops))
     bounds = [(1, 1), (0, INF), (1, 3), (2, 2), (0, 2), (1, INF)]
     for n in range(nseg):
         ops = []
